@@ -479,6 +479,11 @@ DIRECTED = [
     # early-initialisation error that used to be swallowed (fixed)
     [_p(regular='raises', initdef=True), _p(regular='sets', dests=[0]),
      dict(_p(dests=[0, 1]), **{'async': [20, 'done', 2]})],
+    # the early initialisation of b0 fails while b1 restores its saved state (a place where errors are
+    # only logged); b2 gives b0 an output later
+    [_p(regular='raises'), _p(persistent=True, restore='sets', dests=[0]), _p(initdef=True, dests=[0])],
+    [_p(regular='raises'), _p(persistent=True, restore='sets', dests=[0]), _p(regular='sets', dests=[0]),
+     dict(_p(dests=[0]), **{'async': [20, 'done', 2]})],
     # a restored state feeds an event back into the restoring block
     [_p(persistent=True, restore='sets', dests=[1]), _p(dests=[0])],
     [_p(persistent=True, restore='sets', dests=[1]), _p(regular='sets', dests=[0, 2]), _p(dests=[0])],
